@@ -44,10 +44,10 @@ WHAT = {
 }
 
 ARGS = {
-    ("C09", "quick"): ["-modes", "special,tagtable,history,random", "-random", "3000", "-depth", "4", "-histories", "250"],
-    ("C09", "thorough"): ["-modes", "special,tagtable-full,enum,history,random", "-enum-depth", "3", "-random", "30000", "-depth", "4", "-histories", "3000"],
-    ("C10", "quick"): ["-modes", "special,tagtable,history,random", "-random", "3000", "-depth", "4", "-histories", "150"],
-    ("C10", "thorough"): ["-modes", "special,tagtable-full,enum,history,random", "-enum-depth", "3", "-random", "30000", "-depth", "4", "-histories", "2000"],
+    ("C09", "quick"): ["-modes", "special,tagtable,history,ignore,random", "-random", "3000", "-depth", "4", "-histories", "250", "-ignore", "60"],
+    ("C09", "thorough"): ["-modes", "special,tagtable-full,enum,history,ignore,random", "-enum-depth", "3", "-random", "30000", "-depth", "4", "-histories", "3000", "-ignore", "1000"],
+    ("C10", "quick"): ["-modes", "special,tagtable,history,ignore,random", "-random", "3000", "-depth", "4", "-histories", "150", "-ignore", "150"],
+    ("C10", "thorough"): ["-modes", "special,tagtable-full,enum,history,ignore,random", "-enum-depth", "3", "-random", "30000", "-depth", "4", "-histories", "2000", "-ignore", "2000"],
     ("C16", "quick"): ["-crypto", "-crypto-histories", "600"],
     ("C16", "thorough"): ["-crypto", "-crypto-histories", "12000"],
 }
@@ -139,7 +139,7 @@ def _size(v):
     n = 1 + len(v.get("cs") or []) + len(v.get("tags") or [])
     for f in v.get("fields") or []:
         n += _size(f.get("v"))
-    if v.get("k") == "ptr":
+    if v.get("k") in ("ptr", "iface"):
         n += _size(v.get("elem"))
     for e in (v.get("elems") or []) + (v.get("vals") or []):
         n += _size(e)
